@@ -1,8 +1,9 @@
 """C02 — split_at tiles the event: the parts partition the timeline and keep its content."""
 from props.m1common import *  # noqa: F401,F403
-from props.m1common import g, sp, sx, rng_for, is_err, compare_result, shrink_tree
+from props.m1common import alias_failure, g, sp, sx, rng_for, is_err, compare_result, shrink_tree
 
 PID = "C02"
+KERNELS = ['K_chronon_cut_out']   # translated from /repo on every run, tied to the model by coq/Gen/<name>_eq.v
 RUNNER = "impl_m1.py"
 VM_CROSSCHECK = True
 N = {"quick": 2000, "thorough": 80000}
@@ -12,7 +13,7 @@ LEVEL_RULE = ("random event trees (leaf, sequence, simultaneity roots; depth <= 
               "no time, negative time, time beyond the duration with and without the ignore flag, duplicate times - the latter are outside "
               "the property: only the timeline condition is required, and only for trees without a simultaneity). "
               "non-trivial = the call succeeds on distinct in-range times and a cut lies strictly inside a leaf of a nested "
-              "(depth >= 2) child")
+              "(depth >= 2) child. 20 % of the cases place one leaf object at several positions (shared-reference stream); the returned parts are walked for events / Duration objects shared with the receiver")
 ASSUMPTIONS = ASSUMPTIONS_M1
 TRUSTED = TRUSTED_M1
 
@@ -85,6 +86,8 @@ def pieces_cut(t, cuts):
 
 
 def oracle(case, io, mo):
+    if alias_failure(io):
+        return alias_failure(io)
     t = sp.norm(case[1])
     ign = case[2] in ("1", "true", 1, True)
     times = [int(x) for x in case[3:]]
